@@ -144,14 +144,14 @@ def _factor_out_pi(num_list: List[Union[Number, str]], denominator: int = 12) ->
             continue
 
         if np.isclose(p % factor, [0, factor]).any() and p != 0:
-            gcd = np.gcd(int(p / factor), denominator)
+            gcd = np.gcd(int(round(p / factor)), denominator)
             if gcd == denominator:
-                if int(p / np.pi) == 1:
+                if int(round(p / np.pi)) == 1:
                     a.append("np.pi")
                 else:
-                    a.append(f"{int(p / np.pi)}*np.pi")
+                    a.append(f"{int(round(p / np.pi))}*np.pi")
             else:
-                coeff = int(p / factor / gcd)
+                coeff = int(round(p / factor / gcd))
                 if coeff == 1:
                     a.append(f"np.pi/{int(denominator / gcd)}")
                 else:
